@@ -56,3 +56,6 @@ Definition chk_align (Ms outs : list (smatrix Q)) : bool :=
   | Some As => all2 smat_eq As outs
   | None => false
   end.
+
+Definition chk_l2g (tol : Q) (lte orient full : vec Q) : bool :=
+  vec_close tol (convert_lte_local2global QOps lte orient) full.
